@@ -25,6 +25,7 @@ import (
 	"github.com/alicebob/miniredis/v2/server"
 	"github.com/zeromicro/go-zero/core/collection"
 	"github.com/zeromicro/go-zero/core/stores/redis"
+	"github.com/zeromicro/go-zero/core/syncx"
 	"github.com/zeromicro/go-zero/core/timex"
 )
 
@@ -100,13 +101,11 @@ func verifC06Nodes(c Cache, want int) []cacheNode {
 		return []cacheNode{x}
 	case cacheCluster:
 		seen := map[string]cacheNode{}
-		for i := 0; len(seen) < want; i++ {
-			if i > 2000000 {
-				panic("verif: dispatcher does not reach every node")
-			}
+		// (a ring that reaches fewer servers than the section has is reported by the `insts` op, not here)
+		for i := 0; len(seen) < want && i < 20000; i++ {
 			n, ok := x.dispatcher.Get("\x00verif-probe-" + strconv.Itoa(i))
 			if !ok {
-				panic("verif: empty dispatcher")
+				break
 			}
 			cn := n.(cacheNode)
 			seen[cn.rds.Addr] = cn
@@ -263,6 +262,7 @@ type VerifC06Env struct {
 	mrs    []*miniredis.Miniredis
 	nodeOf map[string]int // address -> node index
 	cache  Cache
+	insts  []Cache
 	Jitter *VerifC06Jitter
 }
 
@@ -301,15 +301,44 @@ func VerifC06NewEnv(nodes int, typ, place string) (*VerifC06Env, CacheConf) {
 // Attach hands the cache the real constructors built from the conf to the environment: checks that cache.New
 // chose a plain node for one server and a cluster otherwise, and scripts the jitter of every node.
 func (e *VerifC06Env) Attach(c Cache) {
-	want := "cluster"
-	if e.nodes == 1 {
-		want = "node"
-	}
-	if VerifC06Kind(c) != want {
-		panic("cache.New built a " + VerifC06Kind(c) + " for " + strconv.Itoa(e.nodes) + " node(s)")
-	}
 	e.cache = c
+	e.AttachMore(c)
+}
+
+// AttachMore registers a further cache.Cache over the same servers (another CachedConn / Model instance): its
+// jitter is scripted too. The dispatcher probed for the salted key names stays the one of the first cache.
+func (e *VerifC06Env) AttachMore(c Cache) {
+	e.insts = append(e.insts, c)
 	VerifC06SetJitterSource(c, e.Jitter, e.nodes)
+}
+
+// Instances reports, for the caches attached so far (in order), what the real constructors built:
+//   kinds=<node|cluster>,...     which implementation cache.New / NewNode chose per instance
+//   bar=<c>.<c>...,...           per instance the barrier (SingleFlight) of each of its nodes in node order, as
+//                                a class number: equal numbers = the very same barrier object (numbered in order
+//                                of first appearance), `-` = the instance's ring does not reach that server
+func (e *VerifC06Env) Instances() string {
+	cls := map[syncx.SingleFlight]int{}
+	var kinds, bars []string
+	for _, c := range e.insts {
+		kinds = append(kinds, VerifC06Kind(c))
+		per := make([]string, e.nodes)
+		for i := range per {
+			per[i] = "-"
+		}
+		for _, cn := range verifC06Nodes(c, e.nodes) {
+			id, ok := cls[cn.barrier]
+			if !ok {
+				id = len(cls)
+				cls[cn.barrier] = id
+			}
+			if n, ok := e.nodeOf[cn.rds.Addr]; ok {
+				per[n] = strconv.Itoa(id)
+			}
+		}
+		bars = append(bars, strings.Join(per, "."))
+	}
+	return "kinds=" + strings.Join(kinds, ",") + " bar=" + strings.Join(bars, ",")
 }
 
 // Key maps a key token (p1, x0) to its Redis key: the token salted so that the dispatcher sends it to the
@@ -507,4 +536,77 @@ func (e *VerifC06Env) Close() {
 	for _, mr := range e.mrs {
 		mr.Close()
 	}
+}
+
+// ---------------------------------------------------------------------------------------------------------
+// round 4: SEVERAL CachedConn / monc.Model instances over the same cache servers.
+
+// VerifC06Inst describes one instance of a section: the constructor it is built with and its cache.Options.
+//   conn   sqlc.NewConn / monc.NewModel        (cache.New with the package-wide barrier)
+//   node   sqlc.NewNodeConn / monc.NewNodeModel (cache.NewNode with the package-wide barrier; one server only)
+//   wc<k>  sqlc.NewConnWithCache / monc.NewModelWithCache over a cache the harness builds with cache.New and
+//          ITS OWN barrier number k (instances naming the same k share that barrier)
+type VerifC06Inst struct{ Kind, Exp, Nf string }
+
+// VerifC06Insts parses the section's `inst=<kind>/<exp>/<nf>,...`; absent: one `conn` instance with the
+// section's exp= / nf=.
+func VerifC06Insts(inst, exp, nf string) []VerifC06Inst {
+	if inst == "" || inst == "-" {
+		return []VerifC06Inst{{"conn", exp, nf}}
+	}
+	var out []VerifC06Inst
+	for _, s := range strings.Split(inst, ",") {
+		f := strings.Split(s, "/")
+		if len(f) != 3 || !(f[0] == "conn" || f[0] == "node" || (strings.HasPrefix(f[0], "wc") && len(f[0]) == 3)) {
+			panic("bad inst= in section cfg: " + s)
+		}
+		out = append(out, VerifC06Inst{f[0], f[1], f[2]})
+	}
+	return out
+}
+
+// VerifC06Class is the barrier class the constructors PROMISE for an instance kind ("can't use one SingleFlight
+// per conn, because multiple conns may share the same cache key"): every conn / node instance of a package
+// shares the package-wide barrier, a wc<k> instance has the barrier the caller gave it.
+func VerifC06Class(kind string) string {
+	if kind == "conn" || kind == "node" {
+		return "shared"
+	}
+	return kind
+}
+
+// VerifC06InstOf returns the instance index an op is directed to (`i=<n>`, default 0).
+func VerifC06InstOf(op []string, n int) int {
+	for _, t := range op {
+		if strings.HasPrefix(t, "i=") {
+			i, err := strconv.Atoi(t[2:])
+			if err != nil || i < 0 || i >= n {
+				panic("bad i= in op: " + strings.Join(op, " "))
+			}
+			return i
+		}
+	}
+	return 0
+}
+
+// VerifC06GenInsts draws the instances of a generated section: pick(n) must return a number in [0, n).
+// Instance 0 gets the section's own option values; the others the same values or another class of values.
+// `node` needs a single server.
+func VerifC06GenInsts(pick func(n int) int, nodes int, exp, nf string) (string, int) {
+	n := []int{1, 1, 1, 2, 2, 3, 4}[pick(7)]
+	kinds := []string{"conn", "conn", "wc0", "wc0", "wc1"}
+	if nodes == 1 {
+		kinds = append(kinds, "node", "node", "node")
+	}
+	var out []string
+	for i := 0; i < n; i++ {
+		k := kinds[pick(len(kinds))]
+		e, f := exp, nf
+		if i > 0 && pick(2) == 0 {
+			e = VerifC06ExpValues[pick(len(VerifC06ExpValues))]
+			f = VerifC06NfValues[pick(len(VerifC06NfValues))]
+		}
+		out = append(out, k+"/"+e+"/"+f)
+	}
+	return strings.Join(out, ","), n
 }
